@@ -3,7 +3,7 @@
 # FORCE=1 forgets earlier confirmations first.  Each confirmation = demo without patch, patch applies, demo with patch, unedited test-suite with patch.
 J=${1:-3}
 LIST=$(mktemp)
-for d in /tmp/wt_out/C* /tmp/wt2_out/C* /tmp/wt2_out/D* /tmp/wt3_out/E* /tmp/wt3_out/F*; do
+for d in /tmp/wt_out/C* /tmp/wt2_out/C* /tmp/wt2_out/D* /tmp/wt3_out/E* /tmp/wt3_out/F* /tmp/wt3_out/G*; do
   [ -d "$d" ] || continue
   for f in $d/m[0-9].diff; do [ -f "$f" ] || continue; i=$(basename $f .diff | cut -c2-); [ -n "$FORCE" ] && rm -f $d/m$i.confirm.json; [ -f $d/m$i.confirm.json ] || echo "$d $i" >> $LIST; done
 done
